@@ -52,7 +52,8 @@ def main():
                        "library translation units (bb), inserted by the compiler (-fsanitize-coverage); preemption inside uninstrumented libstdc++/libc is not explored",
                        "sequentially consistent memory (the library has no atomics); the confinement monitor sees every load/store of library code (trace-loads/stores)",
                        "VERIF_SEED is ignored: nothing is sampled"]
-    run.rule = ("real pthreads serialised by a token; deviation-bounded DFS over scheduling points: all schedules with <= k preemptions (switches at a thread end are free), "
+    run.rule = ("bodies: enc, dec, tecmp, status, build on objects of their own, plus the hand-over pair deccont / consume (a decoder's owner goes on decoding while another thread "
+                "reads, copies, feeds to its own Status / Encoder and destroys the packets that decoder returned earlier); real pthreads serialised by a token; deviation-bounded DFS over scheduling points: all schedules with <= k preemptions (switches at a thread end are free), "
                 "both/all initial thread choices; per schedule: every thread's result digest must equal the digest of the same body run alone, ASan clean, and no 8-byte granule "
                 "outside the thread's own stack may be touched by two threads with at least one write (confinement monitor over all library loads/stores); plus a free-running "
                 "ThreadSanitizer pass of the same bodies; distinct = distinct (point count, digests, conflicts) outcomes summed over explorations")
@@ -92,6 +93,15 @@ def main():
         for t in [("enc", "dec", "status"), ("tecmp", "build", "enc"), ("dec", "dec", "dec")]:
             tasks.append((t, 1, 1, 8))
             tasks.append((t, 0, 2, 1))
+    # the hand-over pair: packets a decoder has returned are consumed and destroyed by another thread while the decoder's owner
+    # goes on decoding (rebuilt before every execution)
+    hand = ("deccont", "consume")
+    tasks.append((hand, 0, 99, 1))
+    tasks.append((hand, 1, 1, 1))
+    tasks.append((hand, 2, 1, 2))
+    if tier != "quick":
+        tasks.append((hand, 1, 2, 16))
+        tasks.append((("deccont", "consume", "consume"), 1, 1, 8))
     jobs = []
     for (bodies, level, k, ns) in tasks:
         for s in range(ns):
